@@ -49,7 +49,7 @@ static void modelTest(const Desc& d, const Vec<int>& testGroups, const Vec<int>&
     // plugin pre actions: installation-reversed order
     for (size_t p = pluginGroups.size(); p-- > 0;) {
         const Group& P = d.groups[(size_t)pluginGroups[p]];
-        if (!P.arg(0, 1)) continue;
+        if (!P.arg(0, 1) || P.arg(1)) continue;
         for (size_t i = 0; i < P.ops.size(); i++) if (P.ops[i].phase == PH_PRE && P.ops[i].kind != K_PLUGIN_ERROR) { ExpOp e = { PH_PRE, (int)i, (int)p }; x.ops.push_back(e); }
     }
     int ptrSets = 0; size_t expectLeaks = 0; bool ignoreLeaks = false;
@@ -104,7 +104,7 @@ static void modelTest(const Desc& d, const Vec<int>& testGroups, const Vec<int>&
     // plugin post actions: installation order
     for (size_t p = 0; p < pluginGroups.size(); p++) {
         const Group& P = d.groups[(size_t)pluginGroups[p]];
-        if (!P.arg(0, 1)) continue;
+        if (!P.arg(0, 1) || P.arg(1)) continue;
         for (size_t i = 0; i < P.ops.size(); i++) {
             const Op& o = P.ops[i]; if (o.phase != PH_POST) continue;
             if (o.kind == K_PLUGIN_ERROR) {
@@ -416,6 +416,7 @@ void checkOracles(const Desc& d, const Obs& o, RunResult& r) {
     }
     if (o.fails.size() != failCursor) r.fail("C01", "failure_count", sigOf("what", "failure outside any test"), sfmt("%zu failures recorded, %zu inside test segments", o.fails.size(), failCursor));
 
+    if (o.pluginCount != o.pluginCountExpected || o.removedStillFound) r.fail("C17", "plugin_removed", sigOf("what", o.pluginCount > o.pluginCountExpected ? "plugin not removed" : "wrong plugin removed"), sfmt("%d plugins installed after the removals, model %d; %d removed names still found", o.pluginCount, o.pluginCountExpected, o.removedStillFound));
     // ---- return value (C01)
     if ((o.ret == 0) != !anyRepFailed) r.fail("C01", "return_value", sigOf("what", o.ret == 0 ? "zero although a repetition failed" : "non-zero although every repetition was OK"), sfmt("runner returned %d; some repetition failed: %d", o.ret, (int)anyRepFailed));
     if (o.depthAtEnd != o.depthAtStart) r.fail("C01", "jump_depth", sigOf("where", "end of run"), sfmt("jump stack depth %ld at end of run, %ld at start", o.depthAtEnd, o.depthAtStart));
